@@ -27,6 +27,9 @@ Example grid_disk : let r := rebuild g_faces g_edges g_cut in
   is_disk_b (out_faces r) = true /\ singus_on_border_b r [4] = true /\ out_n r = 10.
 Proof. vm_compute. repeat split; reflexivity. Qed.
 
+Example grid_surface_ok : surface_ok_b g_faces g_edges = true /\ (exists e1 e2, In e1 g_cut /\ In e2 g_cut /\ e1 <> e2).
+Proof. split; [vm_compute; reflexivity|]. exists 0, 1. simpl. repeat split; auto; lia. Qed.
+
 (* the cut edge (1,4) is opened at its border end 1 (faces [0;1;4] and [1;5;4] get different copies of vertex 1)
    but not at the singular leaf 4 (all corners of 4 stay linked the other way round); the two faces of the uncut
    edge (0,4) share both ends *)
@@ -48,7 +51,7 @@ Definition t_rk : Z -> Z := rank_of [(0,0); (1,3); (2,1); (3,2)].
 
 Lemma tetra_not_a_disk :
   cut_hyps t_faces t_edges t_T t_rk /\ dual_spanning_df_b t_faces t_edges t_T = true /\
-  closed_b t_faces = true /\ euler t_faces = 2 /\ oriented_b t_faces = true /\
+  closed_b t_faces = true /\ euler t_faces = 2 /\ surface_ok_b t_faces t_edges = true /\
   cut_edges_of t_edges 4 [0; 1] t_T = Some [0] /\
   let r := rebuild t_faces t_edges [0] in
   out_faces r = t_faces /\ out_n r = 4 /\ is_disk_b (out_faces r) = false /\ euler (out_faces r) = 2 /\
@@ -57,7 +60,7 @@ Proof. unfold cut_hyps. vm_compute. repeat split; reflexivity. Qed.
 
 Lemma disk_refuted : exists faces edges nv singus T rk,
   cut_hyps faces edges T rk /\ dual_spanning_df_b faces edges T = true /\
-  closed_b faces = true /\ euler faces = 2 /\ oriented_b faces = true /\ zlen (dedup singus) = 2 /\
+  closed_b faces = true /\ euler faces = 2 /\ surface_ok_b faces edges = true /\ zlen (dedup singus) = 2 /\
   exists cut, cut_edges_of edges nv singus T = Some cut /\
     let r := rebuild faces edges cut in
     is_disk_b (out_faces r) = false /\ euler (out_faces r) = 2 /\ closed_b (out_faces r) = true /\
